@@ -777,4 +777,510 @@ theorem parse_sound (c : Cfg) (toks : List Token) (t : Ast) (h : parse c toks = 
         rw [← this, b1, b]; simp [yieldSt, yieldStack]
   · simp at h
 
+
+/-! ## Round trip (completeness and uniqueness) -/
+
+/-- no symbol is both a suffix and a binary operator (for such a symbol the token sequence itself is
+ambiguous: `a OP - b`) -/
+def NoAmb (c : Cfg) : Prop := ∀ sym o, c.opRec sym = some o → ¬ (o.up < 0 ∧ o.bp ≠ 0)
+
+def NoAmbTop : List Frame → Prop
+  | .amb _ _ _ :: _ => False
+  | _ => True
+
+/-- the open operator frames a tree leaves on the stack when its last token has been read (top first) -/
+def spineFrames (c : Cfg) : Ast → List Frame
+  | .binary sym _ l r =>
+      match c.opRec sym with
+      | some o => spineFrames c r ++ [.binop l sym o]
+      | none => []
+  | .unary sym _ x =>
+      match c.opRec sym with
+      | some o => if o.up > 0 then spineFrames c x ++ [.pre sym o] else []
+      | none => []
+  | _ => []
+
+/-- ... and the completed value on top of them -/
+def spineLast (c : Cfg) : Ast → Ast
+  | .binary sym al l r =>
+      match c.opRec sym with
+      | some _ => spineLast c r
+      | none => .binary sym al l r
+  | .unary sym al x =>
+      match c.opRec sym with
+      | some o => if o.up > 0 then spineLast c x else .unary sym al x
+      | none => .unary sym al x
+  | t => t
+
+theorem reduceWhile_stop {c : Cfg} {p : Option Prec} {S : List Frame} (v : Ast) (h : stopP c p S) :
+    reduceWhile c p S v = (S, v) := by
+  cases S with
+  | nil => simp [reduceWhile]
+  | cons f S =>
+    cases f with
+    | binop l sym o =>
+      cases p with
+      | none => simp [stopP, ctxOf] at h
+      | some p =>
+        have : reduceOver (c.tokPrec o) p = false := h _ (by simp [ctxOf])
+        simp [reduceWhile, this]
+    | pre sym o =>
+      cases p with
+      | none => simp [stopP, ctxOf] at h
+      | some p =>
+        have : reduceOver (c.unaryPrec o) p = false := h _ (by simp [ctxOf])
+        simp [reduceWhile, this]
+    | _ => simp [reduceWhile]
+
+theorem reduceWhile_spine (c : Cfg) (p : Option Prec) : ∀ (t : Ast), WFn c t → (∀ ρ ∈ rsr c t, redP p ρ) →
+    ∀ S, reduceWhile c p (spineFrames c t ++ S) (spineLast c t) = reduceWhile c p S t
+  | .binary sym al l r, hw, hr, S => by
+    simp only [WFn] at hw
+    obtain ⟨o, ho, hbp, hal, hlv, hrv, hlw, hrw, hlr, hrl⟩ := hw
+    rw [rsr_binary ho] at hr
+    have ih := reduceWhile_spine c p r hrw (fun ρ h => hr ρ (List.mem_cons_of_mem _ h)) (.binop l sym o :: S)
+    simp only [spineFrames, spineLast, ho, List.append_assoc, List.singleton_append]
+    rw [ih]
+    have h0 : redP p (c.tokPrec o) := hr _ (List.mem_cons_self ..)
+    cases p with
+    | none => simp [reduceWhile, hal]
+    | some p => simp only [redP] at h0; simp [reduceWhile, h0, hal]
+  | .unary sym al x, hw, hr, S => by
+    simp only [WFn] at hw
+    obtain ⟨o, ho, hup0, hal, hxv, hxw, hcond⟩ := hw
+    by_cases hup : o.up > 0
+    · rw [rsr_prefix ho hup] at hr
+      have ih := reduceWhile_spine c p x hxw (fun ρ h => hr ρ (List.mem_cons_of_mem _ h)) (.pre sym o :: S)
+      simp only [spineFrames, spineLast, ho, hup, ↓reduceIte, List.append_assoc, List.singleton_append]
+      rw [ih]
+      have h0 : redP p (c.unaryPrec o) := hr _ (List.mem_cons_self ..)
+      cases p with
+      | none => simp [reduceWhile, hal]
+      | some p => simp only [redP] at h0; simp [reduceWhile, h0, hal]
+    · simp [spineFrames, spineLast, ho, hup]
+  | .const _ _, _, _, _ | .keywordConst _, _, _, _ | .getContextValue _, _, _, _ | .index _ _, _, _, _
+  | .list _, _, _, _ | .map _, _, _, _ | .func _ _, _, _, _ | .call _ _, _, _, _ | .wrap _, _, _, _
+  | .mappingRule _ _, _, _, _ | .noValue, _, _, _ => by simp [spineFrames, spineLast]
+
+theorem reduceWhile_value {c : Cfg} {p : Option Prec} {t : Ast} {S : List Frame} (hw : WFn c t)
+    (hr : ∀ ρ ∈ rsr c t, redP p ρ) (hs : stopP c p S) :
+    reduceWhile c p (spineFrames c t ++ S) (spineLast c t) = (S, t) := by
+  rw [reduceWhile_spine c p t hw hr S, reduceWhile_stop t hs]
+
+
+theorem step_none {c : Cfg} {S : List Frame} (t : Token) (h : NoAmbTop S) :
+    step c ⟨S, none⟩ t = stepOperand c S t := by
+  cases S with
+  | nil => rfl
+  | cons f S => cases f <;> first | rfl | (simp [NoAmbTop] at h)
+
+theorem step_some {c : Cfg} {S : List Frame} {v : Ast} (t : Token) :
+    step c ⟨S, some v⟩ t = stepAfter c S v t := rfl
+
+theorem run_cons_ok {c : Cfg} {st st1 : St} {t : Token} (ts : List Token) (h : step c st t = .ok st1) :
+    run c st (t :: ts) = run c st1 ts := by simp [run, h]
+
+theorem run_app_ok {c : Cfg} {st st1 : St} {a : List Token} (b : List Token) (h : run c st a = .ok st1) :
+    run c st (a ++ b) = run c st1 b := by rw [run_append, h]
+
+/-- a tree's tokens, read from a state that expects a value, leave the tree's open operators on the
+stack and its last completed value in `cur` -/
+def RunsTo (c : Cfg) (t : Ast) : Prop :=
+  ∀ S, NoAmbTop S → (∀ q ∈ lsp c t, shifts (ctxOf c S) q) →
+    run c ⟨S, none⟩ (yield c t) = .ok ⟨spineFrames c t ++ S, some (spineLast c t)⟩
+
+theorem after_value_close {c : Cfg} {t : Ast} {S : List Frame} {tk : Token} (hw : WFn c t)
+    (hcl : classify c tk = none) (hS : ctxOf c S = none) :
+    step c ⟨spineFrames c t ++ S, some (spineLast c t)⟩ tk = close S t tk := by
+  rw [step_some]
+  unfold stepAfter
+  simp only [hcl]
+  rw [reduceWhile_value (p := none) hw (fun _ _ => trivial) hS]
+
+def postResult (t : Ast) (S : List Frame) : Post → St
+  | .bin sym o => ⟨.binop t sym o :: S, none⟩
+  | .amb sym o => ⟨.amb t sym o :: S, none⟩
+  | .suf sym o => ⟨S, some (.unary sym o.alias t)⟩
+  | .idx => ⟨newArgs (.index t) :: S, none⟩
+  | .call => ⟨newArgs (.call t) :: S, none⟩
+
+theorem after_value_post {c : Cfg} {t : Ast} {S : List Frame} {tk : Token} {post : Post} {p : Prec}
+    (hw : WFn c t) (hcl : classify c tk = some (post, p))
+    (hr : ∀ ρ ∈ rsr c t, reduceOver ρ p = true) (hs : shifts (ctxOf c S) p) :
+    step c ⟨spineFrames c t ++ S, some (spineLast c t)⟩ tk =
+      .ok (postResult t S post) := by
+  rw [step_some]
+  unfold stepAfter
+  simp only [hcl]
+  rw [reduceWhile_value (p := some p) hw hr hs]
+  cases post <;> rfl
+
+theorem classify_lit {c : Cfg} {ch : Char} (h : ch ≠ '(') : classify c (tLit ch) = none := by
+  simp [classify, tLit, tok, h]
+
+theorem classify_mapping {c : Cfg} : classify c (tok .mapping) = none := by simp [classify, tok]
+
+theorem closer_ne (k : ArgKind) : k.closer ≠ '(' := by cases k <;> simp [ArgKind.closer]
+theorem closer_ne_comma (k : ArgKind) : k.closer ≠ ',' := by cases k <;> simp [ArgKind.closer]
+
+
+theorem run_single {c : Cfg} (st : St) (t : Token) : run c st [t] = step c st t := by
+  simp only [run]; cases step c st t <;> rfl
+
+/-- a value followed by a token that cannot continue it, inside a bracket -/
+theorem value_then_close {c : Cfg} {v : Ast} {S0 : List Frame} {tk : Token} (hr : RunsTo c v) (hw : WFn c v)
+    (hcl : classify c tk = none) (hctx : ctxOf c S0 = none) (hna : NoAmbTop S0) :
+    run c ⟨S0, none⟩ (yield c v ++ [tk]) = close S0 v tk := by
+  rw [run_app_ok [tk] (hr S0 hna (by rw [hctx]; exact fun q _ => shifts_none q)), run_single,
+    after_value_close hw hcl hctx]
+
+def ElemRuns (c : Cfg) : Ast → Prop
+  | .noValue => True
+  | .mappingRule s d => RunsTo c s ∧ RunsTo c d
+  | v => RunsTo c v
+
+theorem elemRuns_value {c : Cfg} {v : Ast} (hv : isValue v = true) : ElemRuns c v = RunsTo c v := by
+  cases v <;> simp [isValue] at hv <;> rfl
+
+theorem yieldL_single (c : Cfg) (a : Ast) : yieldL c [a] = yield c a := by simp [yieldL]
+theorem yieldL_cons_cons (c : Cfg) (a r : Ast) (rs : List Ast) :
+    yieldL c (a :: r :: rs) = yield c a ++ tLit ',' :: yieldL c (r :: rs) := by simp [yieldL]
+
+theorem args_run {c : Cfg} : ∀ (as : List Ast), (∀ a ∈ as, ElemRuns c a) → WFL c as →
+    ∀ (k : ArgKind) (acc : List Ast) (b : Nat) (nm fr : Bool) (S : List Frame), slotsOK b nm as = true →
+    run c ⟨.args k acc b nm fr :: S, none⟩ (yieldL c as ++ [tLit k.closer]) =
+      .ok ⟨S, some (k.build (acc ++ as))⟩
+  | [], _, _, _, _, _, _, _, _, h => by simp [slotsOK] at h
+  | a :: rest, he, hw, k, acc, b, nm, fr, S, h => by
+    obtain ⟨hwa, hwr⟩ := hw
+    have her : ∀ x ∈ rest, ElemRuns c x := fun x hx => he x (List.mem_cons_of_mem _ hx)
+    have hea := he a (List.mem_cons_self ..)
+    have ih := args_run rest her hwr k
+    have hnaF : ∀ acc b nm fr, NoAmbTop (.args k acc b nm fr :: S) := fun _ _ _ _ => trivial
+    have hctxF : ∀ acc b nm fr, ctxOf c (.args k acc b nm fr :: S) = none := fun _ _ _ _ => rfl
+    by_cases hv : isValue a = true
+    · -- a positional value
+      rw [elemRuns_value hv] at hea
+      rw [slotsOK_value hv] at h
+      have hnm : nm = false := by cases nm <;> simp_all
+      subst hnm
+      cases rest with
+      | nil =>
+        rw [yieldL_single]
+        rw [value_then_close hea hwa (classify_lit (closer_ne k)) (hctxF ..) (hnaF ..)]
+        simp [close, tLit, tok, closer_ne_comma k]
+      | cons r rs =>
+        have h2 : slotsOK 2 false (r :: rs) = true := by simpa using h
+        rw [yieldL_cons_cons]
+        have : (yield c a ++ tLit ',' :: yieldL c (r :: rs)) ++ [tLit k.closer] =
+            (yield c a ++ [tLit ',']) ++ (yieldL c (r :: rs) ++ [tLit k.closer]) := by simp
+        rw [this, run_app_ok _ (st1 := ⟨.args k (acc ++ [a]) 2 false false :: S, none⟩)]
+        · rw [ih (acc ++ [a]) 2 false false S h2]; simp
+        · rw [value_then_close hea hwa (classify_lit (by decide)) (hctxF ..) (hnaF ..)]
+          simp [close, tLit, tok]
+    · cases a with
+      | noValue =>
+        simp only [slotsOK, Bool.and_eq_true, Bool.not_eq_true'] at h
+        obtain ⟨⟨hnm, hne⟩, h2⟩ := h
+        subst hnm
+        cases rest with
+        | nil => simp at hne
+        | cons r rs =>
+          rw [yieldL_cons_cons]
+          simp only [yield, List.nil_append, List.cons_append]
+          rw [run_cons_ok (st1 := ⟨.args k (acc ++ [.noValue]) (b - 1) false false :: S, none⟩)]
+          · rw [ih (acc ++ [Ast.noValue]) (b - 1) false false S h2]; simp
+          · rw [step_none _ (hnaF ..)]
+            simp [stepOperand, tLit, tok]
+      | mappingRule sr ds =>
+        simp only [WFn] at hwa
+        obtain ⟨hsv, hdv, hsw, hdw⟩ := hwa
+        obtain ⟨hrs, hrd⟩ := hea
+        simp only [slotsOK, Bool.and_eq_true] at h
+        obtain ⟨hallow, h2⟩ := h
+        have stepA : run c ⟨.args k acc b nm fr :: S, none⟩ (yield c sr ++ [tok .mapping]) =
+            .ok ⟨.named sr :: .args k acc b nm fr :: S, none⟩ := by
+          rw [value_then_close hrs hsw classify_mapping (hctxF ..) (hnaF ..)]
+          simp only [close, tok]
+          simp only [ge_iff_le] at hallow
+          simp [hallow]
+        cases rest with
+        | nil =>
+          rw [yieldL_single]
+          simp only [yield]
+          have : (yield c sr ++ tok .mapping :: yield c ds) ++ [tLit k.closer] =
+              (yield c sr ++ [tok .mapping]) ++ (yield c ds ++ [tLit k.closer]) := by simp
+          rw [this, run_app_ok _ stepA,
+            value_then_close (S0 := .named sr :: .args k acc b nm fr :: S) hrd hdw
+              (classify_lit (closer_ne k)) rfl trivial]
+          simp [close, tLit, tok, closer_ne_comma k]
+        | cons r rs =>
+          have h3 : slotsOK 0 true (r :: rs) = true := by simpa using h2
+          rw [yieldL_cons_cons]
+          simp only [yield]
+          have : ((yield c sr ++ tok .mapping :: yield c ds) ++ tLit ',' :: yieldL c (r :: rs)) ++ [tLit k.closer] =
+              (yield c sr ++ [tok .mapping]) ++ ((yield c ds ++ [tLit ',']) ++
+                (yieldL c (r :: rs) ++ [tLit k.closer])) := by simp
+          rw [this, run_app_ok _ stepA,
+            run_app_ok _ (st1 := ⟨.args k (acc ++ [.mappingRule sr ds]) 0 true false :: S, none⟩)]
+          · rw [ih (acc ++ [Ast.mappingRule sr ds]) 0 true false S h3]; simp
+          · rw [value_then_close (S0 := .named sr :: .args k acc b nm fr :: S) hrd hdw
+              (classify_lit (by decide)) rfl trivial]
+            simp [close, tLit, tok]
+      | _ => simp [isValue] at hv
+
+
+theorem bracket_run {c : Cfg} {as : List Ast} (he : ∀ a ∈ as, ElemRuns c a) (hw : WFL c as)
+    (ha : argsOK as = true) (k : ArgKind) (S : List Frame) :
+    run c ⟨newArgs k :: S, none⟩ (yieldL c as ++ [tLit k.closer]) = .ok ⟨S, some (k.build as)⟩ := by
+  cases as with
+  | nil =>
+    simp only [yieldL, List.nil_append, run_single]
+    rw [step_none _ (by simp [newArgs, NoAmbTop])]
+    simp [stepOperand, tLit, tok, newArgs, closer_ne k, closer_ne_comma k]
+  | cons a rest =>
+    have h : slotsOK 1 false (a :: rest) = true := by simpa [argsOK] using ha
+    simpa [newArgs] using args_run (a :: rest) he hw k [] 1 false true S h
+
+theorem runs_leaf {c : Cfg} {t : Ast} {tk : Token} (hy : yield c t = [tk])
+    (hs : ∀ S, stepOperand c S tk = .ok ⟨S, some t⟩) (hf : spineFrames c t = []) (hl : spineLast c t = t) :
+    RunsTo c t := by
+  intro S hna _
+  rw [hy, run_single, step_none _ hna, hs, hf, hl]; rfl
+
+theorem runs_const {c : Cfg} {k : TokKind} {v : TokVal} (hw : WFn c (.const k v)) : RunsTo c (.const k v) := by
+  simp only [WFn] at hw
+  apply runs_leaf (tk := tok k v) (by simp [yield]) _ rfl rfl
+  intro S
+  rcases hw with h | h | h | h | h <;> subst h <;> rfl
+
+theorem runs_keyword {c : Cfg} {v : TokVal} : RunsTo c (.keywordConst v) :=
+  runs_leaf (tk := tok .keyword v) (by simp [yield]) (fun _ => rfl) rfl rfl
+
+theorem runs_dollar {c : Cfg} {v : TokVal} : RunsTo c (.getContextValue v) :=
+  runs_leaf (tk := tok .dollar v) (by simp [yield]) (fun _ => rfl) rfl rfl
+
+theorem runs_wrap {c : Cfg} {e : Ast} (hw : WFn c e) (hr : RunsTo c e) : RunsTo c (.wrap e) := by
+  intro S hna _
+  simp only [yield]
+  rw [run_cons_ok (st1 := ⟨.paren :: S, none⟩) _ (by rw [step_none _ hna]; rfl)]
+  rw [value_then_close (S0 := .paren :: S) hr hw (classify_lit (by decide)) rfl trivial]
+  simp [close, tLit, tok, spineFrames, spineLast]
+
+theorem runs_opener {c : Cfg} {as : List Ast} {k : ArgKind} {tk : Token} (he : ∀ a ∈ as, ElemRuns c a)
+    (hw : WFL c as) (ha : argsOK as = true) (hy : yield c (k.build as) = tk :: (yieldL c as ++ [tLit k.closer]))
+    (hs : ∀ S, stepOperand c S tk = .ok ⟨newArgs k :: S, none⟩)
+    (hf : spineFrames c (k.build as) = []) (hl : spineLast c (k.build as) = k.build as) :
+    RunsTo c (k.build as) := by
+  intro S hna _
+  rw [hy, run_cons_ok _ (by rw [step_none _ hna, hs]), bracket_run he hw ha, hf, hl]; rfl
+
+theorem runs_func {c : Cfg} {n : TokVal} {as : List Ast} (he : ∀ a ∈ as, ElemRuns c a)
+    (hw : WFn c (.func n as)) : RunsTo c (.func n as) := by
+  simp only [WFn] at hw
+  exact runs_opener (k := .func n) (tk := tok .func n) he hw.2 hw.1 (by simp [ArgKind.build, yield, ArgKind.closer])
+    (fun _ => rfl) rfl rfl
+
+theorem runs_list {c : Cfg} {as : List Ast} (he : ∀ a ∈ as, ElemRuns c a)
+    (hw : WFn c (.list as)) : RunsTo c (.list as) := by
+  simp only [WFn] at hw
+  exact runs_opener (k := .list) (tk := tok .indexer) he hw.2 hw.1 (by simp [ArgKind.build, yield, ArgKind.closer])
+    (fun _ => rfl) rfl rfl
+
+theorem runs_map {c : Cfg} {as : List Ast} (he : ∀ a ∈ as, ElemRuns c a)
+    (hw : WFn c (.map as)) : RunsTo c (.map as) := by
+  simp only [WFn] at hw
+  exact runs_opener (k := .map) (tk := tok .map) he hw.2 hw.1 (by simp [ArgKind.build, yield, ArgKind.closer])
+    (fun _ => rfl) rfl rfl
+
+
+/-- a value followed by a token that continues it -/
+theorem value_then_post {c : Cfg} {v : Ast} {S : List Frame} {tk : Token} {post : Post} {p : Prec}
+    (hr : RunsTo c v) (hw : WFn c v) (hna : NoAmbTop S) (hcl : classify c tk = some (post, p))
+    (hl : ∀ q ∈ p :: lsp c v, shifts (ctxOf c S) q) (hrr : ∀ ρ ∈ rsr c v, reduceOver ρ p = true) :
+    run c ⟨S, none⟩ (yield c v ++ [tk]) = .ok (postResult v S post) := by
+  rw [run_app_ok [tk] (hr S hna (fun q hq => hl q (List.mem_cons_of_mem _ hq))), run_single,
+    after_value_post hw hcl hrr (hl p (List.mem_cons_self ..))]
+
+theorem runs_index {c : Cfg} {b : Ast} {as : List Ast} (hb : RunsTo c b) (he : ∀ a ∈ as, ElemRuns c a)
+    (hw : WFn c (.index b as)) : RunsTo c (.index b as) := by
+  simp only [WFn] at hw
+  obtain ⟨_, hbw, hbr, ha, hwl⟩ := hw
+  intro S hna hl
+  have : yield c (.index b as) = (yield c b ++ [tok .indexer]) ++ (yieldL c as ++ [tLit (ArgKind.index b).closer]) := by
+    simp [yield, ArgKind.closer]
+  rw [this, run_app_ok _ (value_then_post (post := .idx) (p := c.indexerPrec) hb hbw hna
+      (by simp [classify, tok]) (by simpa [lsp] using hl) hbr)]
+  simp only [postResult]
+  rw [bracket_run he hwl ha]; rfl
+
+theorem runs_call {c : Cfg} {f : Ast} {as : List Ast} (hf : RunsTo c f) (he : ∀ a ∈ as, ElemRuns c a)
+    (hw : WFn c (.call f as)) : RunsTo c (.call f as) := by
+  simp only [WFn] at hw
+  obtain ⟨hd, _, hfw, hfr, ha, hwl⟩ := hw
+  intro S hna hl
+  have : yield c (.call f as) = (yield c f ++ [tLit '(']) ++ (yieldL c as ++ [tLit (ArgKind.call f).closer]) := by
+    simp [yield, ArgKind.closer]
+  rw [this, run_app_ok _ (value_then_post (post := .call) (p := noPrec) hf hfw hna
+      (by simp [classify, tLit, tok, hd]) (by simpa [lsp] using hl) hfr)]
+  simp only [postResult]
+  rw [bracket_run he hwl ha]; rfl
+
+theorem runs_binary {c : Cfg} (hna : NoAmb c) {sym : Str} {al : Option Str} {l r : Ast}
+    (hl : RunsTo c l) (hr : RunsTo c r) (hw : WFn c (.binary sym al l r)) : RunsTo c (.binary sym al l r) := by
+  simp only [WFn] at hw
+  obtain ⟨o, ho, hbp, hal, _, _, hlw, hrw, hlr, hrl⟩ := hw
+  have hns : ¬ o.up < 0 := fun h => hna sym o ho ⟨h, hbp⟩
+  intro S hnaS hsp
+  rw [lsp_binary ho] at hsp
+  have : yield c (.binary sym al l r) = (yield c l ++ [tOp sym]) ++ yield c r := by simp [yield]
+  rw [this, run_app_ok _ (value_then_post (post := .bin sym o) (p := c.tokPrec o) hl hlw hnaS
+      (by simp [classify, tOp, tok, ho, hbp, hns]) hsp hlr)]
+  simp only [postResult]
+  rw [hr (.binop l sym o :: S) trivial (fun q hq ρ hρ => by
+    simp [ctxOf] at hρ; subst hρ; exact hrl q hq)]
+  simp [spineFrames, spineLast, ho]
+
+theorem runs_prefix {c : Cfg} {sym : Str} {al : Option Str} {x : Ast} {o : OpRec}
+    (ho : c.opRec sym = some o) (hup : o.up > 0)
+    (hx : RunsTo c x) (hxl : ∀ p ∈ lsp c x, reduceOver (c.unaryPrec o) p = false) :
+    RunsTo c (.unary sym al x) := by
+  intro S hnaS _
+  have : yield c (.unary sym al x) = tOp sym :: yield c x := by simp [yield, isPrefix_of ho, hup]
+  rw [this, run_cons_ok (st1 := ⟨.pre sym o :: S, none⟩) _ (by
+    rw [step_none _ hnaS]; simp [stepOperand, tOp, tok, ho, hup])]
+  rw [hx (.pre sym o :: S) trivial (fun q hq ρ hρ => by
+    simp [ctxOf] at hρ; subst hρ; exact hxl q hq)]
+  simp [spineFrames, spineLast, ho, hup]
+
+theorem runs_suffix {c : Cfg} (hna : NoAmb c) {sym : Str} {x : Ast} {o : OpRec}
+    (ho : c.opRec sym = some o) (hup : o.up < 0) (hxw : WFn c x)
+    (hx : RunsTo c x) (hxr : ∀ ρ ∈ rsr c x, reduceOver ρ (c.tokPrec o) = true) :
+    RunsTo c (.unary sym o.alias x) := by
+  have hbp : o.bp = 0 := by
+    by_cases h : o.bp = 0
+    · exact h
+    · exact absurd ⟨hup, h⟩ (hna sym o ho)
+  have hnp : ¬ o.up > 0 := by omega
+  intro S hnaS hsp
+  rw [lsp_suffix ho hnp] at hsp
+  have : yield c (.unary sym o.alias x) = yield c x ++ [tOp sym] := by simp [yield, isPrefix_of ho, hnp]
+  rw [this, value_then_post (post := .suf sym o) (p := c.tokPrec o) hx hxw hnaS
+      (by simp [classify, tOp, tok, ho, hbp, hup]) hsp hxr]
+  simp [postResult, spineFrames, spineLast, ho, hnp]
+
+theorem runs_unary {c : Cfg} (hna : NoAmb c) {sym : Str} {al : Option Str} {x : Ast}
+    (hx : RunsTo c x) (hw : WFn c (.unary sym al x)) : RunsTo c (.unary sym al x) := by
+  simp only [WFn] at hw
+  obtain ⟨o, ho, hup0, hal, _, hxw, hcond⟩ := hw
+  by_cases hup : o.up > 0
+  · simp only [hup, ↓reduceIte] at hcond
+    exact runs_prefix ho hup hx hcond
+  · simp only [hup, ↓reduceIte] at hcond
+    subst hal
+    exact runs_suffix hna ho (by omega) hxw hx hcond
+
+
+mutual
+theorem runsT (c : Cfg) (hna : NoAmb c) : ∀ (t : Ast), WFn c t → ElemRuns c t
+  | .const _ _, hw => runs_const hw
+  | .keywordConst _, _ => runs_keyword
+  | .getContextValue _, _ => runs_dollar
+  | .binary sym al l r, hw => by
+    have hw' := hw
+    simp only [WFn] at hw'
+    obtain ⟨o, _, _, _, hlv, hrv, hlw, hrw, _, _⟩ := hw'
+    have hl := runsT c hna l hlw
+    have hr := runsT c hna r hrw
+    rw [elemRuns_value hlv] at hl
+    rw [elemRuns_value hrv] at hr
+    exact runs_binary hna hl hr hw
+  | .unary sym al x, hw => by
+    have hw' := hw
+    simp only [WFn] at hw'
+    obtain ⟨o, _, _, _, hxv, hxw, _⟩ := hw'
+    have hx := runsT c hna x hxw
+    rw [elemRuns_value hxv] at hx
+    exact runs_unary hna hx hw
+  | .index b as, hw => by
+    have hw' := hw
+    simp only [WFn] at hw'
+    obtain ⟨hbv, hbw, _, _, hwl⟩ := hw'
+    have hb := runsT c hna b hbw
+    rw [elemRuns_value hbv] at hb
+    exact runs_index hb (runsL c hna as hwl) hw
+  | .list as, hw => by
+    have hw' := hw
+    simp only [WFn] at hw'
+    exact runs_list (runsL c hna as hw'.2) hw
+  | .map as, hw => by
+    have hw' := hw
+    simp only [WFn] at hw'
+    exact runs_map (runsL c hna as hw'.2) hw
+  | .func n as, hw => by
+    have hw' := hw
+    simp only [WFn] at hw'
+    exact runs_func (runsL c hna as hw'.2) hw
+  | .call f as, hw => by
+    have hw' := hw
+    simp only [WFn] at hw'
+    obtain ⟨_, hfv, hfw, _, _, hwl⟩ := hw'
+    have hf := runsT c hna f hfw
+    rw [elemRuns_value hfv] at hf
+    exact runs_call hf (runsL c hna as hwl) hw
+  | .wrap e, hw => by
+    have hw' := hw
+    simp only [WFn] at hw'
+    have he := runsT c hna e hw'.2
+    rw [elemRuns_value hw'.1] at he
+    exact runs_wrap hw'.2 he
+  | .mappingRule sr ds, hw => by
+    simp only [WFn] at hw
+    obtain ⟨hsv, hdv, hsw, hdw⟩ := hw
+    have hs := runsT c hna sr hsw
+    have hd := runsT c hna ds hdw
+    rw [elemRuns_value hsv] at hs
+    rw [elemRuns_value hdv] at hd
+    exact ⟨hs, hd⟩
+  | .noValue, _ => trivial
+theorem runsL (c : Cfg) (hna : NoAmb c) : ∀ (as : List Ast), WFL c as → ∀ a ∈ as, ElemRuns c a
+  | [], _, a, h => by simp at h
+  | x :: xs, hw, a, h => by
+    rcases List.mem_cons.mp h with h1 | h1
+    · rw [h1]; exact runsT c hna x hw.1
+    · exact runsL c hna xs hw.2 a h1
+end
+
+/-- **C02, tree layer, round trip.**  For every table in which no symbol is both a suffix and a
+binary operator: a tree that satisfies the precedence predicate is exactly what the parser returns
+for the token sequence the tree spells.  With `parse_sound` this gives completeness (every `WF`
+tree is reachable) and uniqueness (`parse_unique`). -/
+theorem parse_roundtrip (c : Cfg) (hna : NoAmb c) (t : Ast) (h : WF c t) : parse c (yield c t) = .ok t := by
+  obtain ⟨hv, hw⟩ := h
+  have hr := runsT c hna t hw
+  rw [elemRuns_value hv] at hr
+  have h1 := hr [] trivial (fun q _ => shifts_none q)
+  simp only [parse]
+  have h0 : ({} : St) = ⟨[], none⟩ := rfl
+  rw [h0, h1]
+  simp only [finish, resolveAmb]
+  rw [reduceWhile_value (p := none) (S := []) hw (fun _ _ => trivial) (by simp [stopP, ctxOf])]
+
+/-- the tree the table dictates for a token sequence is unique: two `WF` trees that spell the same
+tokens are equal -/
+theorem yield_injective (c : Cfg) (hna : NoAmb c) (t t' : Ast) (h : WF c t) (h' : WF c t')
+    (hy : yield c t = yield c t') : t = t' := by
+  have a := parse_roundtrip c hna t h
+  have b := parse_roundtrip c hna t' h'
+  rw [hy, b] at a
+  injection a with a
+  exact a.symm
+
+/-- whatever the parser returns for a token list is THE tree dictated by the table: any `WF` tree
+spelling those tokens is that one -/
+theorem parse_unique (c : Cfg) (hna : NoAmb c) (toks : List Token) (t t' : Ast) (hp : parse c toks = .ok t')
+    (h : WF c t) (hy : yield c t = toks.map norm) : t' = t := by
+  obtain ⟨h', hy'⟩ := parse_sound c toks t' hp
+  exact yield_injective c hna t' t h' h (hy'.trans hy.symm)
+
 end Yaql.Props.C02
